@@ -67,6 +67,7 @@ func main() {
 		runCorpus(w)
 		authFamily(g, nil, []forkPoint{forkPoints[0]})
 		runAmounts(g, thorough)
+		runConv(g, thorough)
 		runSessions(g, sessions, stats)
 		runIsolated(g)
 		// process-local history: the corpus again, after everything else has run in this process
@@ -76,6 +77,7 @@ func main() {
 		stats["violations"] = harnessViolations
 	}
 	stats["ops"] = out.N
+	stats["dist"] = dist
 	stats["kinds"] = out.Kinds
 	stats["results"] = out.Results
 	bs, _ := json.Marshal(stats)
